@@ -268,6 +268,48 @@ def rule_global_state(chk, prog):
             r.bad(q, where, "`%s` is now also written by %s (reviewed writers: %s)" % (q, extra, tg[q]["writers"]))
         else:
             r.ok(q, where, "reviewed: " + tg[q]["reason"])
+    # callers of the border setters: the process-wide padding may only be touched by the reviewed functions, each of which leaves it at
+    # the saved value or at the default 0 when it returns
+    tb = table.get("border_callers", {})
+    callers = {}
+    for f in prog.all_functions():
+        if f.tmpl == "pattern" or "/tests/" in f.file:
+            continue
+        for c in calls(f):
+            if c.get("cname") in ("vpsc::Rectangle::setXBorder", "vpsc::Rectangle::setYBorder"):
+                callers.setdefault(f.q, (f, []))[1].append(c)
+    for q, (f, cs) in sorted(callers.items()):
+        r.count()
+        if q not in tb:
+            r.bad("border setter called by " + q, f.loc(cs[0]), "%s changes the process-wide rectangle padding: unrelated later computations "
+                  "(removeoverlaps, constraint generation) give different results" % q)
+            continue
+        from ..cfg import CFG
+        g = CFG(f)
+        bad = None
+        for axis in ("X", "Y"):
+            mine = [c for c in cs if c["cname"].endswith("set%sBorder" % axis)]
+            if not mine:
+                continue
+            # the last call on every path to the exit passes 0 or a local saved from the static at entry
+            finals = []
+            for c in mine:
+                a = strip_casts(call_args(c)[0])
+                lit = literal_value(a)
+                saved = a is not None and a.get("k") == "DeclRefExpr" and a.get("rk") == "Var" and "::" not in str(a.get("ref"))
+                if lit in ("0", "0.0") or saved:
+                    finals.append(c["id"])
+            others = [c for c in mine if c["id"] not in finals]
+            from ..rules.guards import path_condition, show
+            for c in others:
+                if g.must_follow(c["id"], finals) is not None:
+                    # correlated branches: the reset sits under the same (unmodified) condition as the change
+                    pcs = show(path_condition(f, c, inline=False))
+                    same = [x for x in mine if x["id"] in finals and show(path_condition(f, x, inline=False)) == pcs and x.get("l", 0) > c.get("l", 0)]
+                    if same and pcs != "true":
+                        continue
+                    bad = bad or "after set%sBorder(%s) the function can return without putting the border back" % (axis, norm(call_args(c)[0]))
+        (r.bad if bad else r.ok)("border setter called by " + q, f.loc(cs[0]), bad or ("reviewed: " + tb[q]))
     seen = set()
     for f in prog.all_functions():
         for n in f.nodes():
